@@ -220,6 +220,21 @@ PROPS["C15"] = dict(
     level_note=_COMMON_NOTE + " Exhaustive in k for each program (up to the stated bound), sampled in programs; splice / pipe2 fallbacks are exercised by the pump target (C17), the cross-thread kick transports by C08/C09.",
     technique="fault injection enumeration at the system-call boundary over seeded generated programs, with the C01-C09 shadow-model oracles and a differential (same action sequence) oracle for interrupted waits",
     design_ref="DESIGN.md section 3 (C15)")
+RACE_LABELS = ["cross_thread_iv_event_post", "cross_thread_raw_post", "work_pool", "continuation_from_worker", "signal_delivered", "child_reaped", "loop_init_deinit_churn",
+               "two_independent_loops", "method_epoll_timerfd", "method_epoll", "method_ppoll", "method_poll", "pipe_transport", "iv_thread", "two_posters_same_events",
+               "loops_start_before_first_event_registered"]
+PROPS["C14"] = dict(
+    level="exploration", labels=RACE_LABELS, engine="race",
+    campaigns=[("race", [], 2400, 60000)],
+    min_conclusive=300,
+    rule="cases = free-running multi-threaded scenarios built with ThreadSanitizer (library + harness): a main loop with iv_events, a raw event, optional process-wide signal interest, optional wait interests for real forked children and an optional work pool whose work functions submit continuations; 0-3 poster threads posting to those events / the raw event and raising SIGUSR1 at the process, 0-2 threads that run their own independent loops through 1-4 init -> register/post/timer -> deinit rounds, started before or after the main loop registered its first event; 4 poll methods; oracle = ThreadSanitizer (happens-before): every report is a violation except those on the one-way feature-detection flags named in the property (suppressions by global name: inited, epoll_support, epoll_pwait2_support, eventfd_in_use, pipe2_support, splice_available, iv_event_use_event_raw, method, clock_source); non-trivial = >=2 threads besides main, or >=1 plus a work pool or children; distinct = hash(configuration)",
+    assumptions=["signals are accepted by poster threads only (ThreadSanitizer defers asynchronous signals without regard to the receiving thread's later signal mask, which would fabricate re-entrancy into the library's signals-blocked sections)",
+                 "the ThreadSanitizer build uses the library's pipe-based spin lock configuration (HAVE_PTHREAD_SPIN_TRYLOCK undefined): TSan's model of pthread spin locks taken in signal handlers is unreliable (it reports 'double lock' on the unchanged tree)",
+                 "a report needs both accesses to occur in a run; exploration, not a schedule-independent verdict"],
+    level_text="exploration of free-running multi-threaded scenarios under ThreadSanitizer's happens-before analysis; a single report is conclusive, absence of reports is not",
+    level_note="trusted: ThreadSanitizer (clang 14) and its interceptors, the suppression list (exactly the flags named in the property plus the errno-in-signal-handler report, which is not a conflicting access).",
+    technique="fuzzing-style generated multi-threaded scenarios under ThreadSanitizer (dynamic happens-before race detection) with a whitelist oracle",
+    design_ref="DESIGN.md sections 2.4 and 3 (C14)")
 
 ENGINES = [
     dict(name="vfz", path="harness/vfz.c", serves_properties=["C01", "C02", "C03", "C04", "C06", "C07"],
@@ -239,6 +254,7 @@ ENGINES.append(dict(name="wait", path="harness/t_wait.c", serves_properties=["C1
 ENGINES.append(dict(name="ino", path="harness/t_ino.c", serves_properties=["C20"], kind_free_text="iv_inotify on real inotify instances, reference = the stream read() returned to the library"))
 ENGINES.append(dict(name="popen", path="harness/t_popen.c", serves_properties=["C19"], kind_free_text="iv_popen with virtual children under virtual time, plus a real exec'ed helper"))
 ENGINES.append(dict(name="hyg", path="harness/t_hyg.c", serves_properties=["C18"], kind_free_text="init/use/deinit cycles with exact memory, descriptor and thread accounting"))
+ENGINES.append(dict(name="race", path="harness/t_race.c", serves_properties=["C14"], kind_free_text="free-running multi-threaded scenarios, ThreadSanitizer build"))
 NOT_APPLICABLE = {}
 
 for _pid, _txt in {
@@ -325,6 +341,26 @@ def run_check(prop, spec, tier, seed, scale, write_evidence=True):
 
     def handle_failure(exe, casefile, origin):
         nonlocal nviol, nknown
+        # a ThreadSanitizer report is conclusive by itself (happens-before analysis): the run that produced it need not repeat
+        errf = casefile[:-5] + ".stderr"
+        if os.path.exists(errf):
+            et = open(errf, errors="replace").read()
+            ttag = vlib.crash_tag(et) if "ThreadSanitizer" in et else None
+            if ttag and ttag.startswith("tsan."):
+                if ("crash", ttag) in seen_tags:
+                    return
+                seen_tags.add(("crash", ttag))
+                params, data = vlib.read_case(casefile)
+                hh = hashlib.sha1(data + ttag.encode()).hexdigest()[:10]
+                rp = os.path.join(rdir, "%s-%s.case" % (re.sub(r"[^A-Za-z0-9_.@-]", "_", ttag)[:60], hh))
+                first = et[et.find("WARNING: ThreadSanitizer"):][:1800]
+                vlib.write_case(rp, params, data, comment="property %s tag %s (scenario is free-running: the report may need several replays to show again)\n%s" % (prop, ttag, first))
+                rc = _report(prop, dict(v="crash", tag=ttag, msg=first.splitlines()[0] if first else ""), rp, lines)
+                if rc:
+                    nviol += 1
+                else:
+                    nknown += 1
+                return
         r = confirm(exe, casefile)
         if not r:
             lines.append("NOTE: %s failed once but did not reproduce in fresh processes (not reported)" % origin)
